@@ -307,6 +307,53 @@ pub proof fn lemma_fp9_from_mont_post(a: int, res: int)
     lemma_fev9_cong(res * r256(), fev9(a) * r256());
     lemma_fp9_small(res, P9()); lemma_fp9_small(fev9(a), P9());
 }
+// ---------------------------------------------------------------- zero, halving
+pub proof fn lemma_fp9_zero(a: Seq<u64>) requires canon9(a) ensures (fe9(a) == 0) == (val4(a) == 0)
+{
+    lemma_params9(); lemma_val4_bounds(a);
+    assert(0 * RINV_P9() == 0);
+    lemma_fp9_small(0, P9());
+    if fe9(a) == 0 { lemma_fev9_inj(val4(a), 0); }
+}
+// one limb of the 256-bit right shift by one: the new limb is the old one halved plus the low bit of the next limb on top
+pub proof fn lemma_fp9_shr1(x: u64, y: u64)
+    ensures 2 * (((x >> 1) | ((y & 1) << 63)) as int) == x as int - (x & 1) as int + 0x1_0000_0000_0000_0000int * (y & 1) as int,
+        (x & 1) <= 1, (y & 1) <= 1
+{
+    let n = (x >> 1) | ((y & 1) << 63);
+    assert(n == (x >> 1) + (y & 1) * 0x8000_0000_0000_0000 && (x >> 1) + (y & 1) * 0x8000_0000_0000_0000 <= 0xffff_ffff_ffff_ffff
+        && x == 2 * (x >> 1) + (x & 1) && (x & 1) <= 1 && (y & 1) <= 1 && (x >> 1) <= 0x7fff_ffff_ffff_ffff) by(bit_vector)
+        requires n == (x >> 1) | ((y & 1) << 63);
+}
+// the value that is shifted (x when x is even, x + p when x is odd) is even: the low limb of it has low bit 0
+pub proof fn lemma_fp9_div2_parity(x: Seq<u64>, p: Seq<u64>, s: Seq<u64>, c: bool, odd: bool)
+    requires x.len() == 4, p.len() == 4, s.len() == 4,
+        odd ==> val4(s) + (if c { r256() } else { 0 }) == val4(x) + val4(p),
+        !odd ==> s =~= x && !c,
+        odd == ((x[0] & 1) == 1), (p[0] & 1) == 1,
+    ensures (s[0] & 1) == 0
+{
+    let x0 = x[0]; let p0 = p[0]; let s0 = s[0];
+    assert(x0 as int == 2 * ((x0 >> 1) as int) + (x0 & 1) as int && (x0 & 1) <= 1) by(bit_vector);
+    assert(p0 as int == 2 * ((p0 >> 1) as int) + (p0 & 1) as int && (p0 & 1) <= 1) by(bit_vector);
+    assert(s0 as int == 2 * ((s0 >> 1) as int) + (s0 & 1) as int && (s0 & 1) <= 1) by(bit_vector);
+    if odd {
+        let hx = x[1] as int + 0x1_0000_0000_0000_0000int * (x[2] as int + 0x1_0000_0000_0000_0000int * (x[3] as int));
+        let hp = p[1] as int + 0x1_0000_0000_0000_0000int * (p[2] as int + 0x1_0000_0000_0000_0000int * (p[3] as int));
+        let hs = s[1] as int + 0x1_0000_0000_0000_0000int * (s[2] as int + 0x1_0000_0000_0000_0000int * (s[3] as int));
+        let cc: int = if c { 0x8000_0000_0000_0000int * 0x1_0000_0000_0000_0000int * 0x1_0000_0000_0000_0000int * 0x1_0000_0000_0000_0000int } else { 0 };
+        let m = ((x0 >> 1) as int) + ((p0 >> 1) as int) + 1 - ((s0 >> 1) as int) + 0x8000_0000_0000_0000int * (hx + hp - hs) - cc;
+        assert((s0 & 1) as int == 2 * m);
+    }
+}
+pub proof fn lemma_fp9_div2_post(x: int, h: int, t: int)
+    requires 0 <= x < P9(), 2 * h == t, t == x || t == x + P9()
+    ensures 0 <= h < P9(), (fev9(h) + fev9(h)) % P9() == fev9(x)
+{
+    lemma_params9();
+    if t == x + P9() { lemma_fp9_mod_shift(x, 1, P9()); }
+    lemma_fev9_add(x, h, h);
+}
 // ---------------------------------------------------------------- powers
 pub proof fn lemma_fp9_pow_mod_range(x: int, e: nat, m: int) requires m > 0 ensures 0 <= pow_mod(x, e, m) < m decreases e
 {
@@ -364,43 +411,100 @@ pub proof fn lemma_fp9_pow_step(x: int, pre: nat, hv: int, pw: int, top: int, bi
 //@section code gm-sm9/src/fields/fp.rs
 type Fp = U256;
 
-#[verifier::external_body]
 fn fp_pow(a: &Fp, e: &U256) -> (r: Fp)
     requires canon9(a@)
     ensures canon9(r@), fe9(r@) == pow_mod(fe9(a@), val4(e@) as nat, P9())
 {
     let mut r = SM9_MODP_MONT_ONE;
     let mut w = 0u64;
-    for i in (0..4).rev() {
+    proof {
+        lemma_params9(); lemma_fp9_consts();
+        lemma_fp9_small(1, P9());
+        // fp_inv (a method of the impl whose fp_sqr/fp_mul are called here) calls fp_pow, so fp_pow sits in a call-graph cycle and Verus
+        // emits vstd's blanket impl `DoubleEndedIterator => DoubleEndedIteratorSpec` (needed by the `.rev()` loop) only after this
+        // function unless it is mentioned explicitly; this ghost mention creates the dependency (it states nothing).
+        let rg: core::ops::Range<i32> = 0..4;
+        let pb = vstd::std_specs::iter::DoubleEndedIteratorSpec::peek_back(&rg, 0);
+    }
+    for i in it: (0..4).rev()
+        invariant
+            canon9(a@), canon9(r@), 0 <= it.index@ <= 4,
+            fp9_hv(e@, it.index@ as int) >= 0,
+            fe9(r@) == pow_mod(fe9(a@), fp9_hv(e@, it.index@ as int) as nat, P9()),
+    {
         w = e[i];
-        for j in 0..64 {
+        let ghost k = it.index@ as int;
+        let ghost hv = fp9_hv(e@, k);
+        let ghost w0 = w as int;
+        let ghost mut top: int = 0;
+        let ghost mut pw: int = 1;
+        let ghost mut pre: nat = hv as nat;
+        proof { lemma_fp9_hv_step(e@, k); assert(hv * 1 == hv); }
+        for j in jt: 0..64
+            invariant
+                canon9(a@), canon9(r@), hv >= 0, top >= 0, pw >= 1, pw == fp9_p2(jt.index@ as int),
+                w0 * pw == top * 0x1_0000_0000_0000_0000int + w as int,
+                pre == hv * pw + top,
+                fe9(r@) == pow_mod(fe9(a@), pre, P9()),
+        {
+            let ghost wb = w;
             r = r.fp_sqr();
+            let ghost fsq = fe9(r@);
             if w & 0x8000000000000000 != 0 {
                 r = r.fp_mul(a);
             }
             w <<= 1;
+            proof {
+                let bit: int = if wb & 0x8000000000000000 != 0 { 1 } else { 0 };
+                assert(wb & 0x8000000000000000 != 0 ==> wb >= 0x8000000000000000 && (wb << 1) == ((wb - 0x8000000000000000) as u64) * 2) by(bit_vector);
+                assert(wb & 0x8000000000000000 == 0 ==> wb < 0x8000000000000000 && (wb << 1) == wb * 2) by(bit_vector);
+                assert(2 * (wb as int) == bit * 0x1_0000_0000_0000_0000int + w as int);
+                lemma_fp9_pow_step(fe9(a@), pre, hv, pw, top, bit, fsq, fe9(r@));
+                assert(w0 * (2 * pw) == 2 * (w0 * pw)) by(nonlinear_arith);
+                top = 2 * top + bit;
+                pw = 2 * pw;
+                pre = (2 * pre + bit) as nat;
+            }
+        }
+        proof {
+            lemma_fp9_p2_64();
+            assert(w0 * pw == w0 * 0x1_0000_0000_0000_0000int) by(nonlinear_arith) requires pw == 0x1_0000_0000_0000_0000int;
+            assert(top == w0);
+            assert(w0 == e@[3 - k] as int);
         }
     }
     r
 }
 
-#[verifier::external_body]
 fn fp_to_mont(a: &Fp) -> (r: Fp)
     requires canon9(a@)
     ensures canon9(r@), fe9(r@) == val4(a@)
 {
+    proof {
+        lemma_fp9_consts(); lemma_params9(); lemma_val4_bounds(a@);
+        lemma_fp9_mod_range(r256() * r256(), P9());
+        assert(fe9(SM9_MODP_2E512@) == r256() % P9()) by(compute);
+        lemma_fev9_timesR(val4(a@));
+        lemma_mul_mod_noop_general(fe9(a@), r256(), P9());
+        lemma_fp9_small(val4(a@), P9());
+    }
     mont_mul(a, &SM9_MODP_2E512)
 }
 
-#[verifier::external_body]
 fn fp_from_mont(a: &Fp) -> (r: Fp)
     requires canon9(a@)
     ensures canon9(r@), val4(r@) == fe9(a@)
 {
+    proof {
+        lemma_fp9_consts(); lemma_params9(); lemma_val4_bounds(a@);
+        assert(val4(SM9_ONE@) == 1);
+        assert forall|res: int| 0 <= res < P9() && #[trigger] ((res * r256()) % P9()) == (val4(a@) * 1) % P9() implies res == fev9(val4(a@)) by {
+            lemma_fp9_from_mont_post(val4(a@), res);
+        }
+    }
     mont_mul(a, &SM9_ONE)
 }
 
-#[verifier::external_body]
 fn fp_from_bytes(buf: &[u8]) -> (r: Fp)
     requires buf@.len() >= 32, be_val(buf@.subrange(0, 32)) < P9()
     ensures canon9(r@), fe9(r@) == be_val(buf@.subrange(0, 32))
@@ -410,7 +514,6 @@ fn fp_from_bytes(buf: &[u8]) -> (r: Fp)
     t
 }
 
-#[verifier::external_body]
 fn mont_mul(a: &Fp, b: &Fp) -> (res: Fp)
     requires canon9(a@), canon9(b@)
     ensures canon9(res@), (val4(res@) * r256()) % P9() == (val4(a@) * val4(b@)) % P9(), fe9(res@) == (fe9(a@) * fe9(b@)) % P9()
@@ -421,6 +524,7 @@ fn mont_mul(a: &Fp, b: &Fp) -> (res: Fp)
 
     // z = a * b
     let mut z = u256_mul(a, b);
+    let ghost z0 = z@;
 
     // t = low(z) * p'
     let z_low = [z[0], z[1], z[2], z[3]];
@@ -440,10 +544,41 @@ fn mont_mul(a: &Fp, b: &Fp) -> (res: Fp)
 
     // r = high(r)
     r = [z[4], z[5], z[6], z[7]];
+    let ghost q = val4(r@) + (if c { r256() } else { 0 });
+    let ghost tl = val4(t_low@);
+    proof {
+        lemma_fp9_consts(); lemma_params9();
+        let lo_z = z0.subrange(0, 4); let hi_z = z0.subrange(4, 8);
+        let lo_t = t1@.subrange(0, 4); let hi_t = t1@.subrange(4, 8);
+        let lo_s = sum@.subrange(0, 4); let hi_s = sum@.subrange(4, 8);
+        assert(z_low@ =~= lo_z);
+        assert(t_low@ =~= lo_t);
+        assert(r@ =~= hi_s);
+        lemma_val4_bounds(lo_z); lemma_val4_bounds(hi_z); lemma_val4_bounds(lo_t); lemma_val4_bounds(hi_t);
+        lemma_val4_bounds(lo_s); lemma_val4_bounds(hi_s);
+        lemma_val4_bounds(a@); lemma_val4_bounds(b@);
+        let zz = val8(z0); let zl = val4(lo_z); let rr = r256(); let pp = val4(SM9_P_PRIME@);
+        assert(zz == val4(hi_z) * rr + zl) by(nonlinear_arith) requires zz == zl + rr * val4(hi_z);
+        lemma_fundamental_div_mod_converse(zz, rr, val4(hi_z), zl);
+        assert(zl * pp == val4(hi_t) * rr + tl) by(nonlinear_arith) requires zl * pp == tl + rr * val4(hi_t);
+        lemma_fundamental_div_mod_converse(zl * pp, rr, val4(hi_t), tl);
+        assert(zz >= 0) by(nonlinear_arith) requires zz == val4(a@) * val4(b@), val4(a@) >= 0, val4(b@) >= 0;
+        lemma_fp9_mont_div(zz, zl, tl, pp, P9(), rr);
+        let tt = zz + tl * P9();
+        assert(tt == q * rr + val4(lo_s)) by(nonlinear_arith)
+            requires tt == val4(lo_s) + rr * val4(hi_s) + (if c { rr * rr } else { 0 }), q == val4(hi_s) + (if c { rr } else { 0 });
+        lemma_fundamental_div_mod_converse(tt, rr, q, val4(lo_s));
+        assert(q * rr == val4(a@) * val4(b@) + tl * P9());
+        lemma_fp9_mont_q(val4(a@), val4(b@), tl, q, P9(), rr);
+    }
     if c {
         r = u256_add(&r, &SM9_MODP_MONT_ONE).0;
     } else if u256_cmp(&r, &SM9_P) >= 0 {
         r = u256_sub(&r, &SM9_P).0
+    }
+    proof {
+        lemma_val4_bounds(r@);
+        lemma_fp9_mont_post(val4(a@), val4(b@), tl, q, val4(r@));
     }
     r
 }
@@ -460,79 +595,102 @@ impl FieldElement for Fp {
     spec fn s_inv(a: Seq<int>) -> Seq<int> { seq![inv_p9(a[0])] }
     spec fn s_bytes(a: Seq<int>) -> Seq<u8> { be_bytes(a[0], 32) }
 
-    #[verifier::external_body]
     fn zero() -> Self {
+        proof { lemma_fp9_consts(); lemma_params9(); lemma_fp9_zero(SM9_ZERO@); }
         SM9_ZERO
     }
 
-    #[verifier::external_body]
     fn one() -> Self {
+        proof { lemma_fp9_consts(); }
         SM9_MODP_MONT_ONE
     }
 
-    #[verifier::external_body]
     fn is_zero(&self) -> bool {
+        proof {
+            lemma_fp9_zero(self@);
+            lemma_val4_zero(self@);
+            assert(seq![fe9(self@)][0] == fe9(self@));
+            assert(seq![0int][0] == 0);
+        }
         self == &SM9_ZERO
     }
 
-    #[verifier::external_body]
     fn fp_sqr(&self) -> Self {
         self.fp_mul(self)
     }
 
-    #[verifier::external_body]
     fn fp_double(&self) -> Self {
         self.fp_add(self)
     }
 
-    #[verifier::external_body]
     fn fp_triple(&self) -> Self {
         self.fp_double().fp_add(self)
     }
 
-    #[verifier::external_body]
     fn fp_add(&self, rhs: &Self) -> Self {
         let (r, c) = u256_add(self, rhs);
+        proof {
+            lemma_fp9_consts(); lemma_params9();
+            lemma_val4_bounds(r@); lemma_val4_bounds(self@); lemma_val4_bounds(rhs@);
+        }
         if c {
             let (diff, _borrow) = u256_add(&r, &SM9_MODP_MONT_ONE);
+            proof {
+                lemma_val4_bounds(diff@);
+                lemma_fp9_add_post(val4(self@), val4(rhs@), val4(diff@));
+            }
             return diff;
         }
         if u256_cmp(&r, &SM9_P) >= 0 {
             let (diff, _borrow) = u256_sub(&r, &SM9_P);
+            proof {
+                lemma_val4_bounds(diff@);
+                lemma_fp9_add_post(val4(self@), val4(rhs@), val4(diff@));
+            }
             return diff;
         }
+        proof { lemma_fp9_add_post(val4(self@), val4(rhs@), val4(r@)); }
         r
     }
 
-    #[verifier::external_body]
     fn fp_sub(&self, rhs: &Self) -> Self {
         let (raw_diff, borrow) = u256_sub(&self, rhs);
+        proof {
+            lemma_fp9_consts(); lemma_params9();
+            lemma_val4_bounds(raw_diff@); lemma_val4_bounds(self@); lemma_val4_bounds(rhs@);
+        }
         if borrow {
             let (diff, _borrow) = u256_sub(&raw_diff, &SM9_MODP_MONT_ONE);
+            proof {
+                lemma_val4_bounds(diff@);
+                lemma_fp9_sub_post(val4(self@), val4(rhs@), val4(diff@));
+            }
             diff
         } else {
+            proof { lemma_fp9_sub_post(val4(self@), val4(rhs@), val4(raw_diff@)); }
             raw_diff
         }
     }
 
-    #[verifier::external_body]
     fn fp_mul(&self, rhs: &Self) -> Self {
         mont_mul(self, rhs)
     }
 
-    #[verifier::external_body]
     fn fp_neg(&self) -> Self {
+        proof { lemma_fp9_consts(); lemma_params9(); lemma_val4_bounds(self@); lemma_fp9_zero(self@); }
         if self.is_zero() {
+            proof { lemma_fp9_neg_post(val4(self@), val4(self@)); }
             self.clone()
         } else {
+            proof { lemma_fp9_neg_post(val4(self@), P9() - val4(self@)); }
             u256_sub(&SM9_P, self).0
         }
     }
 
-    #[verifier::external_body]
     fn fp_div2(&self) -> Self {
         let mut r = self.clone();
         let mut c = 0;
+        proof { lemma_fp9_consts(); lemma_params9(); lemma_val4_bounds(self@); }
         if r[0] & 0x01 == 1 {
             let (sum, carry) = u256_add(self, &SM9_P);
             c = carry as u64;
@@ -543,19 +701,36 @@ impl FieldElement for Fp {
             r[2] = self[2];
             r[3] = self[3];
         }
+        let ghost r0 = r@;
+        let ghost tt = val4(r0) + (if c == 1 { r256() } else { 0 });
+        proof {
+            let x0 = self@[0]; let p0 = SM9_P@[0]; let s0 = r0[0];
+            assert(x0 & 0x01 == 1 || x0 & 0x01 == 0) by(bit_vector);
+            assert(x0 as int == 2 * ((x0 >> 1) as int) + (x0 & 1) as int) by(bit_vector);
+            assert(s0 as int == 2 * ((s0 >> 1) as int) + (s0 & 1) as int && (s0 & 1) <= 1) by(bit_vector);
+            assert(p0 == 0xe56f9b27e351457d);
+            lemma_val4_bounds(r0);
+            lemma_fp9_div2_parity(self@, SM9_P@, r0, c == 1, self@[0] & 0x01 == 1);
+        }
         r[0] = (r[0] >> 1) | ((r[1] & 1) << 63);
         r[1] = (r[1] >> 1) | ((r[2] & 1) << 63);
         r[2] = (r[2] >> 1) | ((r[3] & 1) << 63);
         r[3] = (r[3] >> 1) | ((c & 1) << 63);
+        proof {
+            let a0 = r0[0]; let a1 = r0[1]; let a2 = r0[2]; let a3 = r0[3];
+            lemma_fp9_shr1(a0, a1); lemma_fp9_shr1(a1, a2); lemma_fp9_shr1(a2, a3); lemma_fp9_shr1(a3, c);
+            assert(c & 1 == c) by(bit_vector) requires c == 0 || c == 1;
+            assert(2 * val4(r@) == tt);
+            lemma_fp9_div2_post(val4(self@), val4(r@), tt);
+        }
         r
     }
 
-    #[verifier::external_body]
     fn fp_inv(&self) -> Self {
+        proof { lemma_fp9_consts(); lemma_params9(); }
         fp_pow(self, &SM9_P_MINUS_TWO)
     }
 
-    #[verifier::external_body]
     fn to_bytes_be(&self) -> Vec<u8> {
         let z = fp_from_mont(self);
         u256_to_be_bytes(&z)
